@@ -636,7 +636,6 @@ func c05Ident(c *core.C) {
 	}
 }
 
-
 // expectedNodeCount: for CycloneDX, distinct non-empty bom-refs plus components without bom-ref
 // (metadata.component and components[] recursively); for SPDX, the entries of packages[] and files[].
 func expectedNodeCount(tree *jsonx.Value) (int, bool) {
